@@ -862,6 +862,8 @@ impl Compactor {
     async fn garbage_collect(&self) -> Result<()> {
         let gc_start = std::time::Instant::now();
         let now = chrono::Utc::now();
+        #[cfg(feature = "verif_hooks")]
+        let now = now + crate::verif_hooks::clock_offset();
         let grace_period = chrono::Duration::from_std(self.config.gc_grace_period)
             .unwrap_or_else(|_| chrono::Duration::seconds(300));
         let cutoff = now - grace_period;
@@ -961,6 +963,10 @@ impl Compactor {
             path: path.to_string(),
             scheduled_at: chrono::Utc::now(),
         });
+        #[cfg(feature = "verif_hooks")]
+        if let Some(last) = pending.last_mut() {
+            last.scheduled_at += crate::verif_hooks::clock_offset();
+        }
     }
 
     /// Enforce data retention policy
